@@ -10,6 +10,8 @@ RAND_TABLE = None  # filled lazily from the regenerated Coq table or decode.c
 
 
 def crc32_bz(data, crc=0xFFFFFFFF):
+    if len(data) > 64:
+        return crc32_fast(data, crc)
     for b in data:
         crc ^= b << 24
         for _ in range(8):
@@ -76,6 +78,59 @@ def bwt(blk):
     dbl = blk + blk
     rots = sorted(range(n), key=lambda i: dbl[i:i + n])
     return [blk[(i - 1) % n] for i in rots], rots.index(0), rots
+
+
+def ibwt_column(col, idx):
+    """what a decoder reconstructs from (last column, primary index): follow the stable-sort permutation n times"""
+    n = len(col)
+    order = sorted(range(n), key=lambda i: col[i])     # stable
+    out = []
+    j = idx
+    for _ in range(n):
+        j = order[j]
+        out.append(col[j])
+    return out
+
+
+_CRC_TAB = None
+
+
+def crc32_fast(data, crc=0xFFFFFFFF):
+    global _CRC_TAB
+    if _CRC_TAB is None:
+        _CRC_TAB = []
+        for i in range(256):
+            c = i << 24
+            for _ in range(8):
+                c = ((c << 1) ^ 0x04C11DB7) & 0xFFFFFFFF if c & 0x80000000 else (c << 1) & 0xFFFFFFFF
+            _CRC_TAB.append(c)
+    for b in data:
+        crc = ((crc << 8) & 0xFFFFFFFF) ^ _CRC_TAB[(crc >> 24) ^ b]
+    return crc
+
+
+def forge_crc_suffix(data, target_stored):
+    """4 bytes to append to data so that the bzip2 block CRC (as stored: ~register) equals target_stored"""
+    crc32_fast(b"")
+    want = target_stored ^ 0xFFFFFFFF            # register value after the 4 appended bytes
+    reg = crc32_fast(data)
+    # run the register backwards over 4 unknown bytes: find top-byte table entries
+    idx = []
+    r = want
+    for _ in range(4):
+        low = r & 0xFF
+        t = [i for i in range(256) if _CRC_TAB[i] & 0xFF == low][0]
+        idx.append(t)
+        r = ((r ^ _CRC_TAB[t]) >> 8) | 0  # previous register's low 24 bits (top byte unknown yet)
+    # forward: choose bytes so that the table indices come out as required (idx reversed)
+    out = []
+    cur = reg
+    for t in reversed(idx):
+        b = (cur >> 24) ^ t
+        out.append(b)
+        cur = ((cur << 8) & 0xFFFFFFFF) ^ _CRC_TAB[t]
+    assert cur == want, (hex(cur), hex(want))
+    return bytes(out)
 
 
 def mtfzrle(L):
@@ -185,6 +240,7 @@ class Block:
         self.zigzag = 0
         self.mv_override = None
         self.const_run = None           # (byte, n): a block whose BWT column is n copies of byte, built without sorting
+        self.raw_col = None             # (column bytes, idx): an arbitrary "BWT column"; the plaintext is whatever it decodes to
 
     def emit(self, w, rng=None):
         if self.const_run is not None:
@@ -199,6 +255,14 @@ class Block:
                 run >>= 1
             mv.append(2)
             self._emit_raw(w, crc, 0, [c], 3, mv, rng)
+            return crc
+        if self.raw_col is not None:
+            col, idx = self.raw_col
+            plain = unrle1(ibwt_column(col, idx))
+            self.data = bytes(plain)
+            crc = crc32_bz(plain) ^ 0xFFFFFFFF
+            mv, used, asz = mtfzrle(list(col))
+            self._emit_raw(w, crc, idx, used, asz, mv, rng)
             return crc
         if self.rle_block is not None:
             blk = list(self.rle_block)
